@@ -48,6 +48,7 @@ type envOpts struct {
 	DownHosts       []int             // hosts stopped before the proxy connects (still members)
 	Cluster         *fakecass.Cluster // reuse this cluster (several proxies against one backend); not closed by env.Close
 	BackendDC       string
+	Contact         int // index of the host used as contact point
 }
 
 type env struct {
@@ -119,7 +120,7 @@ func startEnv(o envOpts) (*env, error) {
 	for _, h := range o.DownHosts {
 		cl.Host(h).Stop()
 	}
-	contact := 0
+	contact := o.Contact
 	for contains(o.DownHosts, contact) {
 		contact++
 	}
